@@ -5,6 +5,7 @@
 mod util;
 mod c02;
 mod c03;
+mod c06;
 mod c10;
 mod c13;
 mod c14;
@@ -39,6 +40,7 @@ fn main() {
     match args.scenario.as_str() {
         "c02" => c02::run(&args),
         "c03" => c03::run(&args),
+        "c06" => c06::run(&args),
         "c10" => c10::run(&args),
         "c13" => c13::run(&args),
         "c14" => c14::run(&args),
